@@ -71,7 +71,7 @@ WClose(p) == /\ (wst[p] = "told" \/ (wst[p] = "run" /\ wi[p] > Len(T[p].items)))
              /\ UNCHANGED <<T, wi, lst>>
 \* ---- reader process of leaf a: Recv until EOF, Close at any time between two calls (also after EOF)
 LStep(a) == /\ lst[a] \in {"idle", "recv"}
-            /\ \E o \in Rv(M, T, a, a) :
+            /\ \E o \in {x \in Rv(M, T, a, a) : x.t # "panic"} :          \* a panic in the caller's own Recv is outside the universe
                  LET G1 == IF lst[a] = "idle" THEN Obs(G, T, Ev("call", a, "recv", 0, "")) ELSE G IN
                  /\ M' = o.M
                  /\ IF o.t = "prog" THEN lst' = [lst EXCEPT ![a] = "recv"] /\ G' = G1
